@@ -68,12 +68,13 @@ pub open spec fn rel(a: int, s: int) -> int { (a - s + 0x100000) % 0x100000 }
     ensures r == IntoSpec::<usize>::into_spec(v) % (MB as usize), r < MB,
 //@end
 
-// assumed contract, discharged by Kani unit l0_inc_addr (the generic `v + inc` on T: Add is outside Verus' reach)
-#[verifier::external_body]
-pub fn inc_addr(v: usize, inc: usize) -> (r: usize)
-    requires v < 0x100000, inc <= 0x10000,
-    ensures r == (v + inc) % 0x100000,
-{ unimplemented!() }
+// the real generic function (`v + inc` on T: Add through vstd's AddSpec); weakest precondition: the addition is defined.
+// (Kani unit l0_inc_addr proves the same for the usize instance bit-precisely.)
+//@fn src/lib/util/address.rs inc_addr
+//@contract
+    requires <T as vstd::std_specs::ops::AddSpec<T>>::obeys_add_spec(), <T as vstd::std_specs::ops::AddSpec<T>>::add_req(v, inc), <T as IntoSpec<usize>>::obeys_into_spec(),
+    ensures r == IntoSpec::<usize>::into_spec(<T as vstd::std_specs::ops::AddSpec<T>>::add_spec(v, inc)) % (MB as usize), r < MB,
+//@end
 
 pub struct Address;
 impl Address {
@@ -85,11 +86,13 @@ impl Address {
 //@end
 }
 
-// assumed contract, discharged by Kani unit l0_separate_bytes (bit operations on i16)
-#[verifier::external_body]
-pub fn separate_bytes(val: i16) -> (r: (u8, u8))
+// the real function; the two bit-vector facts are hints (Kani unit l0_separate_bytes proves the same bit-precisely)
+//@item src/lib/util/data_util.rs const LOWER_BYTE
+//@fn src/lib/util/data_util.rs separate_bytes
+//@contract
     ensures r.0 == (val as u16) / 256, r.1 == (val as u16) % 256,
-{ unimplemented!() }
+//@before let lb = :: proof { assert(((val & 0xFFi16) as u8) == ((val as u16) % 256) as u8) by (bit_vector); assert((((val & !0xFFi16) >> 8) as u8) == ((val as u16) / 256) as u8) by (bit_vector); }
+//@end
 
 
 // ---- ghost output log (extractor rewrite R2) ---------------------------------------------
